@@ -53,7 +53,7 @@ def emit_all(ctx):
     em('RW_unlock', r'inline\s+void\s+RWLockImpl::unlock\s*\(\s*\)')
     em('RW_lock_shared', r'inline\s+void\s+RWLockImpl::lock_shared\s*\(\s*\)',
        extra=[('LC', r'(while\s*\(val & kWriteBit\))\s*\{\s*RW_readerRelease', r'\1' + LC_SPIN.replace('val, spin,', 'val,') +
-               '__CPROVER_loop_invariant(WORD_OK && EXCL_INV && !g_viol && !g_bad_order && !g_need_wake && !g_bit_mine && g_mine_count == 1 && ((val & kWriteBit) || (g_hold_read_mine && !g_excl_other))) { RW_readerRelease', 1),
+               '__CPROVER_loop_invariant(WORD_OK && EXCL_INV && !g_viol && !g_bad_order && !g_need_wake && !g_bit_mine && g_mine_count == 1 && ((val & kWriteBit) || (g_hold_read_mine && !g_excl_other))) { RW_readerRelease', 'opt'),   # (if the retry loop is not there, nothing is injected and the postcondition decides)
               ('LC', r'(for\s*\(int spin = 0; val & kWriteBit; \+\+spin\))\s*\{', r'\1' + LC_SPIN +
                '__CPROVER_loop_invariant(WORD_OK && EXCL_INV && !g_viol && !g_bad_order && !g_need_wake && !g_bit_mine && g_mine_count == 0 && !g_hold_read_mine && spin >= 0 && spin <= kSpinBeforeYield) {', 1)])
     em('RW_try_lock_shared', r'inline\s+bool\s+RWLockImpl::try_lock_shared\s*\(\s*\)')
